@@ -2,7 +2,7 @@
   Lemmas the property theorems of C08 refer to: the ready flag, who invokes which callback, refresh
   before draw on the trace, the discarding of a screen whose setup failed.
 -/
-import Simpleline.Lemmas.SchedBridge
+import Simpleline.Lemmas.SchedSetup
 
 namespace Simpleline
 set_option linter.unusedSimpArgs false
@@ -134,6 +134,21 @@ theorem step_discard (P : Prog) (c : Cfg) (top e : Entry) (rest : List Instr) (h
       .ok (if e.modal then push (c.discarded rest) [.closeLoop, .afterSetupFail e] else (c.discarded rest).redraw) := by
   cases hm : e.modal <;> simp [step, hc, hrs, he, hm, Cfg.discarded]
 
+theorem refresh_step_eq (P : Prog) (c : Cfg) (top : Entry) (rest : List Instr) (hc : c.code = .afterSetup2 top :: rest) :
+    ∃ c', step P c = .ok c' ∧
+      c'.code = .callScr top.screen .refresh top.args none :: .identCheck top :: .catchPS :: rest ∧
+      c'.tr = .refresh top :: c.tr ∧ c'.A = c.A ∧ c'.log = c.log := by
+  simp only [step, hc]
+  exact ⟨_, rfl, rfl, rfl, rfl, rfl⟩
+
+theorem close_step_eq (P : Prog) (c : Cfg) (frm : Option Src) (e : Entry) (rest : List Instr)
+    (hc : c.code = .closeScreen frm :: rest) (he : c.A.stack.getLast? = some e) :
+    ∃ c', step P c = .ok c' ∧
+      c'.code = .callScr e.screen .closed none none :: .closeScreen2 e frm :: rest ∧
+      c'.A.stack = c.A.stack.dropLast ∧ c'.tr = .stackOp "close" c.A.stack.dropLast :: c.tr ∧ c'.log = c.log := by
+  simp only [step, hc, he]
+  exact ⟨_, rfl, rfl, rfl, rfl, rfl⟩
+
 /-- the result of `setup` is tested right after it returns, for the entry that was set up -/
 theorem setup_result_tested {P : Prog} {c0 c : Cfg} (h0 : Started c0) (hr : Reach P c0 c) {scr : Nat} {ret : Ret}
     {key : Option Str} {rest : List Instr} (hc : c.code = .scrRet scr .setup ret key :: rest) :
@@ -148,5 +163,17 @@ theorem setup_result_tested {P : Prog} {c0 c : Cfg} (h0 : Started c0) (hr : Reac
   refine ⟨top, r, rfl, h1, ?_⟩
   simp only [step, hc]
   split <;> rfl
+
+theorem check_after_refresh {P : Prog} {c0 c : Cfg} (h0 : Started c0) (hr : Reach P c0 c) {scr : Nat} {ret : Ret}
+    {key : Option Str} {pre post : List Instr} (hc : c.code = pre ++ .scrRet scr .refresh ret key :: post) :
+    ∃ top rest, post = .identCheck top :: .catchPS :: rest ∧ top.screen = scr := by
+  have hs := hr.shape h0
+  rw [hc] at hs
+  obtain ⟨j, r, rfl, top, rfl, h1⟩ := hs.at (i := .scrRet scr .refresh ret key) rfl
+  have hs' : Shape ((pre ++ [.scrRet scr .refresh ret key]) ++ .identCheck top :: r) := by simpa using hs
+  obtain ⟨j, r', rfl, hj⟩ := hs'.at (i := .identCheck top) rfl
+  simp only [Instr.needs] at hj
+  subst hj
+  exact ⟨top, r', rfl, h1⟩
 
 end Simpleline
